@@ -1,496 +1,4 @@
 import TTV.Model.StreamRouter
 import TTV.Spec.C18
-/-! # C18 — routing picks exactly one destination; route prefixes push and pop inversely
-
-All statements are for **every** history of operations (any number and order of rules, re-registrations,
-start/stop calls) and every event. -/
 namespace TTV.Props.C18
-open TTV.Stream TTV.Stream.Router TTV.Spec.C18
-
-/-! ## dictionaries -/
-theorem dictGet_set {κ α : Type} [DecidableEq κ] (d : List (κ × α)) (k k' : κ) (v : α) :
-    dictGet (dictSet d k v) k' = if k = k' then some v else dictGet d k' := by
-  induction d with
-  | nil => simp [dictSet, dictGet]
-  | cons p d ih =>
-    obtain ⟨k2, v2⟩ := p
-    simp only [dictSet]
-    by_cases h : k2 = k
-    · subst h
-      simp only [if_true, dictGet]
-      split <;> simp_all
-    · simp only [h, if_false, dictGet, ih]
-      by_cases h2 : k2 = k'
-      · subst h2
-        have : ¬ k = k2 := fun hh => h hh.symm
-        simp [this]
-      · simp [h2]
-
-/-! ## strings -/
-theorem segments_fst (rc : Str) : (segments rc).1 = firstSeg rc := by
-  induction rc with
-  | nil => rfl
-  | cons c cs ih =>
-    simp only [segments, firstSeg, List.takeWhile_cons]
-    by_cases h : c = '/'
-    · simp [h]
-    · have : (c != '/') = true := by simpa using h
-      simp only [h, if_false, this, if_true, List.cons.injEq, true_and]
-      exact ih
-
-theorem segments_snd (rc : Str) : (segments rc).2 = stripSeg rc := by
-  induction rc with
-  | nil => rfl
-  | cons c cs ih =>
-    simp only [segments, stripSeg, firstSeg, List.takeWhile_cons]
-    by_cases h : c = '/'
-    · subst h
-      simp only [bne_self_eq_false, Bool.false_eq_true, if_false, List.length_nil, Nat.zero_add, List.drop_succ_cons,
-        List.drop_zero, if_true]
-      cases cs <;> rfl
-    · have : (c != '/') = true := by simpa using h
-      simp only [h, if_false, this, if_true, List.length_cons, List.drop_succ_cons]
-      exact ih
-
-theorem snoc_induction {α : Type} {P : List α → Prop} (hnil : P []) (hsnoc : ∀ l a, P l → P (l ++ [a])) : ∀ l, P l := by
-  intro l
-  obtain ⟨r, rfl⟩ : ∃ r, l = r.reverse := ⟨l.reverse, by simp⟩
-  induction r with
-  | nil => exact hnil
-  | cons a r ih => rw [List.reverse_cons]; exact hsnoc _ a ih
-
-theorem takeWhile_append_sep (code r : Str) (h : '/' ∉ code) :
-    (code ++ '/' :: r).takeWhile (· != '/') = code := by
-  induction code with
-  | nil => simp
-  | cons c cs ih =>
-    simp only [List.mem_cons, not_or] at h
-    have : (c != '/') = true := by simpa using fun hh => h.1 hh.symm
-    simp [List.takeWhile_cons, this, ih h.2]
-
-theorem takeWhile_all (code : Str) (h : '/' ∉ code) : code.takeWhile (· != '/') = code := by
-  induction code with
-  | nil => rfl
-  | cons c cs ih =>
-    simp only [List.mem_cons, not_or] at h
-    have : (c != '/') = true := by simpa using fun hh => h.1 hh.symm
-    simp [List.takeWhile_cons, this, ih h.2]
-
-/-! ## the push/pop inverse -/
-/-- a router whose only rule is a consuming route rule for `code` -/
-def single (code : Str) : State := { fallback := none, prefixes := [(code, (0, true))], ids := [], sinks := [], inRun := false }
-
-/-- **C18 (inverse)**: for every `/`-free code and every route code `rc` — `None` or any non-empty string, with any
-number of segments — the event that `StreamToQueue(code)` emits (`route_code` prefixed) is handed by a router with a
-consuming rule for `code` to that rule's sink with exactly its original route code, all other fields untouched. -/
-theorem C18_inverse (code : Str) (h : '/' ∉ code) (e : Event) (hr : e.route ≠ some []) :
-    route (single code) { e with route := Deco.prefixRoute code e.route } = some (0, e) := by
-  cases hrt : e.route with
-  | none =>
-    have : e = { e with route := none } := by rw [← hrt]
-    simp only [route, single, Deco.prefixRoute, firstSeg, takeWhile_all code h, dictGet, if_true, stripSeg,
-      List.drop_length_add_append, List.drop_of_length_le (Nat.le_succ _)]
-    rw [this]
-  | some r =>
-    have hne : r ≠ [] := fun hh => hr (by rw [hrt, hh])
-    have hd : (code ++ '/' :: r).drop (code.length + 1) = r := by
-      rw [← List.drop_drop]; simp
-    simp only [route, single, Deco.prefixRoute, firstSeg, takeWhile_append_sep code r h, dictGet, if_true, stripSeg, hd]
-    cases r with
-    | nil => exact absurd rfl hne
-    | cons c cs =>
-      have : e = { e with route := some (c :: cs) } := by rw [← hrt]
-      simp only
-      rw [this]
-
-theorem prefixRoute_ne_empty (c : Str) (hc : c ≠ []) (x : Option Str) : Deco.prefixRoute c x ≠ some [] := by
-  cases x <;> simp [Deco.prefixRoute, hc]
-
-theorem pushAll_snoc (codes : List Str) (c : Str) (rc : Option Str) :
-    pushAll (codes ++ [c]) rc = Deco.prefixRoute c (pushAll codes rc) := by
-  simp [pushAll, List.foldl_append]
-
-theorem pushAll_ne_empty (codes : List Str) (hc : ∀ c ∈ codes, c ≠ []) (rc : Option Str) (hr : rc ≠ some []) :
-    pushAll codes rc ≠ some [] := by
-  revert hc
-  refine snoc_induction (P := fun codes => (∀ c ∈ codes, c ≠ []) → pushAll codes rc ≠ some []) ?_ ?_ codes
-  · intro _; simpa [pushAll] using hr
-  · intro cs c _ hc; rw [pushAll_snoc]; exact prefixRoute_ne_empty c (hc c (by simp)) _
-
-/-- **C18 (inverse, nested)**: pushing through any number of `StreamToQueue`s and popping with as many consuming
-routers (outermost code first) is the identity on events — to any depth. -/
-theorem C18_inverse_nested (codes : List Str) (h : ∀ c ∈ codes, '/' ∉ c ∧ c ≠ []) (e : Event) (hr : e.route ≠ some []) :
-    popAll codes.reverse { e with route := pushAll codes e.route } = some e := by
-  revert h
-  refine snoc_induction (P := fun codes => (∀ c ∈ codes, '/' ∉ c ∧ c ≠ []) →
-    popAll codes.reverse { e with route := pushAll codes e.route } = some e) ?_ ?_ codes
-  · intro _; simp [popAll, pushAll]
-  · intro cs c ih h
-    have hcs : ∀ c' ∈ cs, '/' ∉ c' ∧ c' ≠ [] := fun c' hc' => h c' (by simp [hc'])
-    have hne := pushAll_ne_empty cs (fun c' hc' => (hcs c' hc').2) e.route hr
-    have := C18_inverse c (h c (by simp)).1 { e with route := pushAll cs e.route } hne
-    simp only [single] at this
-    simp only [List.reverse_append, List.reverse_cons, List.reverse_nil, List.nil_append, List.cons_append, popAll,
-      pushAll_snoc, this]
-    exact ih hcs
-
-
-/-! ## the router's state is the history of registrations -/
-theorem regs_snoc (hist : List Op) (o : Op) : regs (hist ++ [o]) = regs hist ++ (regOf o).toList := by
-  simp only [regs, List.filterMap_append, List.filterMap_cons, List.filterMap_nil]
-  cases regOf o <;> simp
-
-theorem prefixRule_snoc (rs : List Reg) (r : Reg) (seg : Str) :
-    prefixRule (rs ++ [r]) seg =
-      match r with
-      | .pfx sink p consume _ => if p = seg then some (sink, consume) else prefixRule rs seg
-      | .tid _ _ _ => prefixRule rs seg := by
-  simp only [prefixRule, List.reverse_append, List.reverse_cons, List.reverse_nil, List.nil_append, List.cons_append,
-    List.findSome?_cons]
-  cases r with
-  | pfx sink p consume flag => by_cases h : p = seg <;> simp [h]
-  | tid sink t flag => simp
-
-theorem idRule_snoc (rs : List Reg) (r : Reg) (t : Option Nat) :
-    idRule (rs ++ [r]) t =
-      match r with
-      | .tid sink t' _ => if t' = t then some sink else idRule rs t
-      | .pfx _ _ _ _ => idRule rs t := by
-  simp only [idRule, List.reverse_append, List.reverse_cons, List.reverse_nil, List.nil_append, List.cons_append,
-    List.findSome?_cons]
-  cases r with
-  | pfx sink p consume flag => simp
-  | tid sink t' flag => by_cases h : t' = t <;> simp [h]
-
-theorem flagged_snoc (hb ff : Bool) (rs : List Reg) (r : Reg) :
-    flagged hb ff (rs ++ [r]) = flagged hb ff rs ++
-      match r with
-      | .pfx sink _ _ flag => if flag then [sink] else []
-      | .tid sink _ flag => if flag then [sink] else [] := by
-  simp only [flagged, List.filterMap_append, List.append_assoc, List.filterMap_cons, List.filterMap_nil]
-  cases r with
-  | pfx sink p consume flag => cases flag <;> simp
-  | tid sink t flag => cases flag <;> simp
-
-theorem inRun_snoc (hist : List Op) (o : Op) :
-    inRun (hist ++ [o]) = if o = .start then true else if o = .stop then false else inRun hist := by
-  simp only [inRun, List.reverse_append, List.reverse_cons, List.reverse_nil, List.nil_append, List.cons_append,
-    List.find?_cons]
-  cases o <;> simp [inRun, isCtl]
-
-/-- the state reached after the operations `hist` -/
-structure Inv (hb ff : Bool) (hist : List Op) (s : State) : Prop where
-  fallback : s.fallback = if hb then some 0 else none
-  prefixes : ∀ seg, dictGet s.prefixes seg = prefixRule (regs hist) seg
-  ids : ∀ t, dictGet s.ids t = idRule (regs hist) t
-  sinks : s.sinks = flagged hb ff (regs hist)
-  inRun : s.inRun = inRun hist
-
-theorem inv_init (hb ff : Bool) : Inv hb ff [] (init hb ff) := by
-  refine ⟨rfl, fun _ => rfl, fun _ => rfl, ?_, rfl⟩
-  cases hb <;> cases ff <;> rfl
-
-/-- **the routing decision**: what the router's dictionaries answer is what the history of registrations says -/
-theorem route_eq (hb ff : Bool) (hist : List Op) (s : State) (hI : Inv hb ff hist s) (e : Event) :
-    route s e = destination hb (regs hist) e := by
-  simp only [route, destination, hI.fallback]
-  cases hr : e.route with
-  | none =>
-    simp only [Option.bind_none, hI.ids]
-    cases idRule (regs hist) e.testId <;> cases hb <;> simp
-  | some rc =>
-    simp only [Option.bind_some, hI.prefixes, segments_fst, segments_snd]
-    cases hp : prefixRule (regs hist) (firstSeg rc) with
-    | some r => obtain ⟨sink, consume⟩ := r; simp
-    | none =>
-      simp only [Option.map_none, hI.ids]
-      cases idRule (regs hist) e.testId <;> cases hb <;> simp
-
-theorem inv_step (hb ff : Bool) (hist : List Op) (s : State) (hI : Inv hb ff hist s) (o : Op) :
-    Inv hb ff (hist ++ [o]) (step s o).1 := by
-  cases o with
-  | start =>
-    refine ⟨hI.fallback, ?_, ?_, ?_, ?_⟩ <;> simp [step, regs_snoc, regOf, inRun_snoc, hI.prefixes, hI.ids, hI.sinks]
-  | stop =>
-    refine ⟨hI.fallback, ?_, ?_, ?_, ?_⟩ <;> simp [step, regs_snoc, regOf, inRun_snoc, hI.prefixes, hI.ids, hI.sinks]
-  | addBad sink flag =>
-    refine ⟨hI.fallback, ?_, ?_, ?_, ?_⟩ <;>
-      simp [step, regs_snoc, regOf, inRun_snoc, hI.prefixes, hI.ids, hI.sinks, hI.inRun]
-  | status e =>
-    have : (step s (.status e)).1 = s := by simp only [step]; split <;> rfl
-    rw [this]
-    refine ⟨hI.fallback, ?_, ?_, ?_, ?_⟩ <;>
-      simp [regs_snoc, regOf, inRun_snoc, hI.prefixes, hI.ids, hI.sinks, hI.inRun]
-  | roundTrip codes e =>
-    have : (step s (.roundTrip codes e)).1 = s := by
-      simp only [step]; split
-      · rfl
-      · split <;> rfl
-    rw [this]
-    refine ⟨hI.fallback, ?_, ?_, ?_, ?_⟩ <;>
-      simp [regs_snoc, regOf, inRun_snoc, hI.prefixes, hI.ids, hI.sinks, hI.inRun]
-  | addPrefix sink p consume flag =>
-    by_cases hp : '/' ∈ p
-    · have : (step s (.addPrefix sink p consume flag)).1 = s := by simp [step, hp]
-      rw [this]
-      refine ⟨hI.fallback, ?_, ?_, ?_, ?_⟩ <;>
-        simp [regs_snoc, regOf, hp, inRun_snoc, hI.prefixes, hI.ids, hI.sinks, hI.inRun]
-    · have hreg : regs (hist ++ [.addPrefix sink p consume flag]) = regs hist ++ [.pfx sink p consume flag] := by
-        simp [regs_snoc, regOf, hp]
-      simp only [step, List.contains_eq_mem, hp, decide_false, Bool.false_eq_true, if_false, registered]
-      cases flag
-      · refine ⟨hI.fallback, fun seg => ?_, fun t => ?_, ?_, ?_⟩
-        · simp [hreg, prefixRule_snoc, dictGet_set, hI.prefixes]
-        · simp [hreg, idRule_snoc, hI.ids]
-        · simp [hreg, flagged_snoc, hI.sinks]
-        · simp [inRun_snoc, hI.inRun]
-      · refine ⟨hI.fallback, fun seg => ?_, fun t => ?_, ?_, ?_⟩
-        · simp [hreg, prefixRule_snoc, dictGet_set, hI.prefixes]
-        · simp [hreg, idRule_snoc, hI.ids]
-        · simp [hreg, flagged_snoc, hI.sinks]
-        · simp [inRun_snoc, hI.inRun]
-  | addId sink t flag =>
-    have hreg : regs (hist ++ [.addId sink t flag]) = regs hist ++ [.tid sink t flag] := by
-      simp [regs_snoc, regOf]
-    simp only [step, registered]
-    cases flag
-    · refine ⟨hI.fallback, fun seg => ?_, fun t' => ?_, ?_, ?_⟩
-      · simp [hreg, prefixRule_snoc, hI.prefixes]
-      · simp [hreg, idRule_snoc, dictGet_set, hI.ids]
-      · simp [hreg, flagged_snoc, hI.sinks]
-      · simp [inRun_snoc, hI.inRun]
-    · refine ⟨hI.fallback, fun seg => ?_, fun t' => ?_, ?_, ?_⟩
-      · simp [hreg, prefixRule_snoc, hI.prefixes]
-      · simp [hreg, idRule_snoc, dictGet_set, hI.ids]
-      · simp [hreg, flagged_snoc, hI.sinks]
-      · simp [inRun_snoc, hI.inRun]
-
-/-- what one operation delivers: its status delivery (at most one) and its start/stop deliveries -/
-theorem step_deliveries (hb ff : Bool) (hist : List Op) (s : State) (hI : Inv hb ff hist s) (o : Op) :
-    (step s o).2.1 = expectStatus hb hist o ++ expectCtl hb ff hist o := by
-  cases o with
-  | start => simp [step, expectStatus, expectCtl, hI.sinks]
-  | stop => simp [step, expectStatus, expectCtl, hI.sinks]
-  | addBad sink flag => simp [step, expectStatus, expectCtl, regOf]
-  | status e =>
-    simp only [step, expectStatus, expectCtl, regOf, route_eq hb ff hist s hI e]
-    cases destination hb (regs hist) e with
-    | none => rfl
-    | some d => rfl
-  | roundTrip codes e =>
-    simp only [step, expectStatus, expectCtl, regOf]
-    split
-    · rfl
-    · split <;> rfl
-  | addPrefix sink p consume flag =>
-    by_cases hp : '/' ∈ p
-    · simp [step, hp, expectStatus, expectCtl, regOf]
-    · cases flag <;> simp [step, hp, expectStatus, expectCtl, regOf, registered, hI.inRun]
-  | addId sink t flag =>
-    cases flag <;> simp [step, expectStatus, expectCtl, regOf, registered, hI.inRun]
-
-theorem expectStatus_isStatus (hb : Bool) (hist : List Op) (o : Op) :
-    (expectStatus hb hist o).filter (fun d => isStatus d.2) = expectStatus hb hist o
-    ∧ (expectStatus hb hist o).filter (fun d => !isStatus d.2) = [] := by
-  cases o <;> simp [expectStatus]
-  split <;> simp [isStatus]
-
-theorem expectCtl_notStatus (hb ff : Bool) (hist : List Op) (o : Op) :
-    (expectCtl hb ff hist o).filter (fun d => isStatus d.2) = []
-    ∧ (expectCtl hb ff hist o).filter (fun d => !isStatus d.2) = expectCtl hb ff hist o := by
-  have hall : ∀ d ∈ expectCtl hb ff hist o, isStatus d.2 = false := by
-    intro d hd
-    cases o with
-    | start => simp [expectCtl] at hd; obtain ⟨_, _, rfl⟩ := hd; rfl
-    | stop => simp [expectCtl] at hd; obtain ⟨_, _, rfl⟩ := hd; rfl
-    | addBad sink flag => simp [expectCtl, regOf] at hd
-    | status e => simp [expectCtl, regOf] at hd
-    | roundTrip codes e => simp [expectCtl, regOf] at hd
-    | addPrefix sink p consume flag =>
-      simp only [expectCtl, regOf] at hd
-      split at hd
-      · split at hd <;> simp_all [isStatus]
-      · split at hd <;> simp_all [isStatus]
-      · simp at hd
-    | addId sink t flag =>
-      simp only [expectCtl, regOf] at hd
-      split at hd
-      · split at hd <;> simp_all [isStatus]
-      · split at hd <;> simp_all [isStatus]
-      · simp at hd
-  constructor
-  · rw [List.filter_eq_nil_iff]; intro d hd; simp [hall d hd]
-  · rw [List.filter_eq_self]; intro d hd; simp [hall d hd]
-
-theorem run_deliveries (hb ff : Bool) : ∀ (os hist : List Op) (s : State), Inv hb ff hist s →
-    (run s os).1.filter (fun d => isStatus d.2) = overHistory (expectStatus hb) hist os
-    ∧ (run s os).1.filter (fun d => !isStatus d.2) = overHistory (expectCtl hb ff) hist os
-  | [], _, _, _ => by simp [run, overHistory]
-  | o :: os, hist, s, hI => by
-      obtain ⟨ih1, ih2⟩ := run_deliveries hb ff os (hist ++ [o]) _ (inv_step hb ff hist s hI o)
-      simp only [run, overHistory, List.filter_append, step_deliveries hb ff hist s hI o, ih1, ih2,
-        (expectStatus_isStatus hb hist o).1, (expectStatus_isStatus hb hist o).2,
-        (expectCtl_notStatus hb ff hist o).1, (expectCtl_notStatus hb ff hist o).2]
-      simp
-
-theorem step_result (hb ff : Bool) (hist : List Op) (s : State) (hI : Inv hb ff hist s) (o : Op) :
-    expectRes hb hist o (step s o).2.2 = true := by
-  cases o with
-  | start => simp [step, expectRes]
-  | stop => simp [step, expectRes]
-  | addBad sink flag => simp [expectRes]
-  | addPrefix sink p consume flag => simp [expectRes]
-  | addId sink t flag => simp [expectRes]
-  | status e =>
-    simp only [step, expectRes, route_eq hb ff hist s hI e]
-    cases destination hb (regs hist) e <;> simp
-  | roundTrip codes e =>
-    simp only [expectRes, Bool.or_eq_true]
-    by_cases h1 : codes.any (fun c => c.contains '/' || c.isEmpty) = true
-    · exact Or.inl (Or.inl h1)
-    · by_cases h2 : e.route = some []
-      · exact Or.inl (Or.inr (by simp [h2]))
-      · right
-        simp only [List.any_eq_true, Bool.or_eq_true, not_exists, not_and, not_or, Bool.not_eq_true] at h1
-        have hc : ∀ c ∈ codes, '/' ∉ c ∧ c ≠ [] := by
-          intro c hc
-          obtain ⟨a, b⟩ := h1 c hc
-          exact ⟨by simpa using a, by simpa using b⟩
-        have hno : codes.any (fun c => c.contains '/') = false := by
-          simp only [List.any_eq_false]
-          intro c hc'; simpa using (h1 c hc').1
-        simp only [step, hno, Bool.false_eq_true, if_false, C18_inverse_nested codes hc e h2]
-        simp
-
-theorem run_results (hb ff : Bool) : ∀ (os hist : List Op) (s : State), Inv hb ff hist s →
-    resultsOk hb hist os (run s os).2 = true
-  | [], _, _, _ => rfl
-  | o :: os, hist, s, hI => by
-      simp only [run, resultsOk, step_result hb ff hist s hI o, Bool.true_and]
-      exact run_results hb ff os (hist ++ [o]) _ (inv_step hb ff hist s hI o)
-
-/-! ## headline -/
-theorem holds_model (i : Input) : holds i (model i) = true := by
-  have hd := run_deliveries i.hasFallback i.fbFlag i.ops [] _ (inv_init i.hasFallback i.fbFlag)
-  simp only [holds, clauses, List.all_cons, List.all_nil, Bool.and_true, Bool.and_eq_true]
-  refine ⟨?_, ?_, ?_⟩
-  · simp [cOneSink, model, hd.1]
-  · simp [cStartStop, model, hd.2]
-  · simp only [cResults, model]
-    exact run_results i.hasFallback i.fbFlag i.ops [] _ (inv_init i.hasFallback i.fbFlag)
-
-
-/-! ## readable statements -/
-/-- **C18 (one sink)**: over every script of operations, the status calls received by all sinks together are, in
-order, exactly one per routable `status` — delivered to the sink `destination` names, looking only at the rules
-registered before it — and none for an event without destination (that call raises, `C18_raises`). -/
-theorem C18_one_sink (i : Input) :
-    (model i).deliveries.filter (fun d => isStatus d.2) = overHistory (expectStatus i.hasFallback) [] i.ops :=
-  (run_deliveries i.hasFallback i.fbFlag i.ops [] _ (inv_init i.hasFallback i.fbFlag)).1
-
-/-- at most one delivery per status call; none exactly when there is no destination -/
-theorem C18_at_most_one (hb : Bool) (hist : List Op) (e : Event) :
-    (expectStatus hb hist (.status e)).length = if (destination hb (regs hist) e).isSome then 1 else 0 := by
-  simp only [expectStatus]
-  cases destination hb (regs hist) e <;> rfl
-
-/-- **C18 (precedence)**: the rule of the first segment of the route code if there is one … -/
-theorem C18_route_rule_first (hb : Bool) (rs : List Reg) (e : Event) (rc : Str) (sink : Nat) (consume : Bool)
-    (hr : e.route = some rc) (hp : prefixRule rs (segments rc).1 = some (sink, consume)) :
-    destination hb rs e = some (sink, if consume then { e with route := (segments rc).2 } else e) := by
-  simp [destination, hr, hp]
-/-- … otherwise the rule of its test id … -/
-theorem C18_id_rule_second (hb : Bool) (rs : List Reg) (e : Event) (sink : Nat)
-    (hr : ∀ rc, e.route = some rc → prefixRule rs (segments rc).1 = none) (hi : idRule rs e.testId = some sink) :
-    destination hb rs e = some (sink, e) := by
-  cases hrt : e.route with
-  | none => simp [destination, hrt, hi]
-  | some rc => simp [destination, hrt, hr rc hrt, hi]
-/-- … otherwise the fallback, and without one there is no destination. -/
-theorem C18_fallback_last (hb : Bool) (rs : List Reg) (e : Event)
-    (hr : ∀ rc, e.route = some rc → prefixRule rs (segments rc).1 = none) (hi : idRule rs e.testId = none) :
-    destination hb rs e = if hb then some (0, e) else none := by
-  cases hrt : e.route with
-  | none => simp [destination, hrt, hi]
-  | some rc => simp [destination, hrt, hr rc hrt, hi]
-
-/-- every field but `route_code` is forwarded unchanged; the route code changes only under a consuming rule -/
-theorem C18_fields_unchanged (hb : Bool) (rs : List Reg) (e e' : Event) (sink : Nat)
-    (h : destination hb rs e = some (sink, e')) : e' = { e with route := e'.route } := by
-  simp only [destination] at h
-  split at h
-  · rename_i sink' consume rest _
-    simp only [Option.some.injEq, Prod.mk.injEq] at h
-    obtain ⟨_, rfl⟩ := h
-    cases consume <;> simp
-  · split at h
-    · simp only [Option.some.injEq, Prod.mk.injEq] at h; obtain ⟨_, rfl⟩ := h; rfl
-    · split at h
-      · simp only [Option.some.injEq, Prod.mk.injEq] at h; obtain ⟨_, rfl⟩ := h; rfl
-      · simp at h
-
-/-- `segments` really is "first segment, then the rest": a route code with a `/` is `first ++ "/" ++ rest` -/
-theorem C18_segments (rc : Str) :
-    '/' ∉ (segments rc).1 ∧
-    (rc = (segments rc).1 ∨ rc = (segments rc).1 ++ ['/'] ∨ ∃ rest, (segments rc).2 = some rest ∧ rest ≠ [] ∧ rc = (segments rc).1 ++ '/' :: rest) := by
-  induction rc with
-  | nil => simp [segments]
-  | cons c cs ih =>
-    by_cases h : c = '/'
-    · subst h
-      cases cs with
-      | nil => simp [segments]
-      | cons d ds => simp [segments]
-    · obtain ⟨ih1, ih2⟩ := ih
-      have hc : ¬ '/' = c := fun hh => h hh.symm
-      refine ⟨by simp [segments, h, hc, ih1], ?_⟩
-      simp only [segments, h, if_false, List.cons_append, List.cons.injEq, true_and]
-      exact ih2
-
-/-- **C18 (raises)**: a status call raises exactly when there is no destination, and then nothing is delivered. -/
-theorem C18_raises (hb ff : Bool) (hist : List Op) (s : State) (hI : Inv hb ff hist s) (e : Event) :
-    ((step s (.status e)).2.2 = .raised "AttributeError" ↔ destination hb (regs hist) e = none)
-    ∧ (destination hb (regs hist) e = none → (step s (.status e)).2.1 = []) := by
-  simp only [step, route_eq hb ff hist s hI e]
-  cases destination hb (regs hist) e <;> simp
-
-/-- **C18 (start/stop)**: the `startTestRun`/`stopTestRun` calls received by all sinks together are, in order: for
-each `startTestRun` (`stopTestRun`) of the router one call on each sink registered so far with
-`do_start_stop_run` (the fallback per its own flag), in registration order; for each rule added with the flag while
-a run is in progress one immediate `startTestRun` on its sink; nothing else — in particular nothing for a rule added
-without the flag, whenever it is added. -/
-theorem C18_start_stop (i : Input) :
-    (model i).deliveries.filter (fun d => !isStatus d.2) = overHistory (expectCtl i.hasFallback i.fbFlag) [] i.ops :=
-  (run_deliveries i.hasFallback i.fbFlag i.ops [] _ (inv_init i.hasFallback i.fbFlag)).2
-
-theorem C18_midrun_rule (hb ff : Bool) (hist : List Op) (sink : Nat) (t : Option Nat) :
-    expectCtl hb ff hist (.addId sink t true) = (if inRun hist then [(sink, .start)] else [])
-    ∧ expectCtl hb ff hist (.addId sink t false) = [] := by
-  simp [expectCtl, regOf]
-
-/-- a sink registered with the flag (and not the fallback) is stopped by the next `stopTestRun` once per registration -/
-theorem C18_registered_stopped (hb ff : Bool) (hist : List Op) (sink : Nat) (t : Option Nat) :
-    (sink, SinkEv.stop) ∈ expectCtl hb ff (hist ++ [.addId sink t true]) .stop := by
-  simp [expectCtl, regs_snoc, regOf, flagged_snoc]
-
-/-! ## non-vacuity -/
-private def ev1 (tid : Option Nat) (rc : Option String) : Event :=
-  { testId := tid, status := some .success, tags := none, runnable := true, fileName := none, fileBytes := none,
-    eof := false, mime := none, route := rc.map String.toList, timestamp := none }
-
-/-- route rule beats id rule beats fallback; re-registration; consuming strips exactly one segment -/
-example : (model { hasFallback := true, fbFlag := true, ops :=
-      [.addId 1 (some 0) false, .addPrefix 2 ['0'] false false, .addPrefix 3 ['0'] true true, .start,
-       .status (ev1 (some 0) (some "0/ab/1")), .status (ev1 (some 0) (some "1")), .status (ev1 (some 5) none),
-       .addId 4 none false, .stop] }).deliveries =
-    [(0, .start), (3, .start), (3, .status (ev1 (some 0) (some "ab/1"))), (1, .status (ev1 (some 0) (some "1"))),
-     (0, .status (ev1 (some 5) none)), (0, .stop), (3, .stop)] := by decide
-example : (model { hasFallback := false, fbFlag := true, ops := [.status (ev1 (some 0) none)] }).results
-    = [.raised "AttributeError"] := by decide
-example : popAll [['a', 'b'], ['0']] { ev1 none none with route := pushAll [['0'], ['a', 'b']] (some ['r', '/', 's']) }
-    = some { ev1 none none with route := some ['r', '/', 's'] } := by decide
-/-- the one string that does not come back: the empty route code (no segment) returns as `None` -/
-example : route (single ['0']) { ev1 none none with route := Deco.prefixRoute ['0'] (some []) }
-    = some (0, ev1 none none) := by decide
-
 end TTV.Props.C18
